@@ -117,7 +117,10 @@ def lean_imports(mod, seen=None):
 def regen():
     rc, out = sh([sys.executable, os.path.join(VERIF, 'tools', 'pvtx.py'), REPO,
                   os.path.join(LEAN, 'Generated')])
-    return rc, out
+    # function bodies: Rust -> Lean definitions (Generated/Fns*.lean), tied by Proofs/Tie*.lean
+    rc2, out2 = sh([sys.executable, os.path.join(VERIF, 'tools', 'rs2lean.py'), REPO,
+                    os.path.join(LEAN, 'Generated')])
+    return (rc or rc2), out + out2
 
 
 def build_proofs(pid, mods, log, tier='quick'):
@@ -168,7 +171,7 @@ def build_proofs(pid, mods, log, tier='quick'):
         if rc2 != 0:
             failed.add('axiom audit failed')
         cur = None
-        for m in re.finditer(r"'([^']+)' (depends on axioms: \[([^\]]*)\]|does not depend on any axioms)", out2, re.S):
+        for m in re.finditer(r"'([^\n]+?)' (depends on axioms: \[([^\]]*)\]|does not depend on any axioms)", out2, re.S):
             name = m.group(1)
             axs = [a.strip() for a in (m.group(3) or '').replace('\n', ' ').split(',') if a.strip()]
             res['axioms'][name] = axs
